@@ -84,6 +84,9 @@ type lox struct {
 
 	_qla    int
 	_qlasym any
+
+	// _recovering is set by _recover and cleared when a token is shifted.
+	_recovering bool
 }
 
 func (p *jsoncParser) parse(lex _Lexer) bool {
@@ -111,6 +114,9 @@ func (p *jsoncParser) parse(lex _Lexer) bool {
 				State: action,
 				Sym:   p._lasym,
 			})
+			if p._la != ERROR {
+				p._recovering = false
+			}
 			p._readToken()
 		} else { // reduce
 			prod := -action
@@ -164,6 +170,17 @@ func (p *jsoncParser) _recover() bool {
 	if !ok {
 		errSym = p._makeError()
 	}
+
+	if p._recovering {
+		// The previous recovery failed again before a single token could be
+		// shifted. Retrying with the same look-ahead would select the same
+		// recovery point forever, so the look-ahead is discarded.
+		if p._la == EOF {
+			return false
+		}
+		p._readToken()
+	}
+	p._recovering = true
 
 	for p._la == ERROR {
 		p._readToken()
